@@ -52,3 +52,56 @@ def run_family(chk, name, cases, case_fn, site, rule, nontrivial=lambda case: Tr
                 chk.report_failure(rec)
     chk.add_bounded(name, n_eval, len(distinct), rule, [sample_of(c) for c in cases[:2]])
     return results
+
+
+def run_sequences(chk, name, cases, results, case_fn, site, group=3, limit=30, timeout=900, seed=0):
+    """History independence of the property's own observable: cases that hold when run alone (status ok in `results`) are run
+    again in groups of `group` inside ONE process, with the API's default cache clearing between calls (clear=True).  A failure
+    of a case inside a sequence is therefore due to what ran before it in the same process."""
+    import random
+    ok = [c for c, r in zip(cases, results) if r.get("status") == "ok" and c.get("kind") not in ("sequence",)]
+    if len(ok) < 2:
+        return []
+    rnd = random.Random(1000 + seed)
+    order = list(ok)
+    rnd.shuffle(order)
+    seqs = []
+    for i in range(0, len(order) - 1, group):
+        items = order[i:i + group]
+        if len(items) < 2:
+            items = order[-group:]
+        seqs.append(dict(tag="seq/" + "+".join(str(x.get("tag")) for x in items), features=dict(sequence=True), kind="sequence", items=items))
+    seqs = seqs[:limit]
+    fn_mod, fn_name = case_fn.__module__, case_fn.__name__
+
+    return run_family(chk, name, seqs, _SeqFn(case_fn), site,
+                      rule=f"cases that hold when run alone, re-run in shuffled groups of {group} inside one process (API-default cache clearing "
+                           f"between calls; at most {limit} groups): every case must still hold; distinct = groups",
+                      sample_of=lambda c: dict(tag=c["tag"]), timeout=timeout)
+
+
+class _SeqFn:
+    """picklable wrapper: runs the items of a sequence case one after the other with the oracles in sequence mode"""
+    def __init__(self, fn):
+        self.fn = fn
+        self.__module__ = fn.__module__
+        self.__name__ = getattr(fn, "__name__", "case_fn")
+
+    def __call__(self, c):
+        if c.get("kind") != "sequence":
+            return self.fn(c)
+        from . import oracle
+        oracle.SEQUENCE_MODE = True
+        try:
+            for j, sub in enumerate(c["items"]):
+                r = self.fn(sub)
+                oracle.end_of_sequence_item()
+                if r.get("status") == "violated":
+                    fails = r.get("fails", [])
+                    for f in fails:
+                        if f.get("clause") != "HARNESS":
+                            f["clause"] = f"case #{j} ({sub.get('tag')}) of a sequence run in one process: " + str(f.get("clause"))
+                    return dict(status="violated", fails=fails)
+            return dict(status="ok")
+        finally:
+            oracle.SEQUENCE_MODE = False
